@@ -79,6 +79,7 @@ def _filler_block(ts: int) -> Block:
 
 
 _BASE_CACHE = {}
+_FILLER = {}
 
 
 def hollow_base(h0: int, target: bytes, n_outputs: int = 12, value_each: int = 5_000_000_000):
@@ -117,22 +118,17 @@ def hollow_base_with_start(h0: int, target: bytes, start_height: int, start_ts: 
     return cs2, T
 
 
-def two_root_base(h0: int, target: bytes, start_height: int, start_ts_1: int, start_ts_2: int):
+def two_root_base(h0: int, target: bytes, start_height: int, start_ts_1: int, start_ts_2: int, salt: int = 0):
     """Two trusted tips T1 (head) and T2 at the same height whose never-validated histories differ at
     start_height (a fork deeper than one retarget period, as far as the retarget rule can see)."""
-    cs1, T1 = hollow_base_with_start(h0, target, start_height, start_ts_1)
-    filler2 = _filler_block(start_ts_2)
-    outs = [Output(4_000_000_000 + i, key((i + 5) % 12).pk) for i in range(8)]
-    cb = Transaction([Input(OutputReference(ZERO32, 0), CoinbaseData(h0, b'base2'))], outs)
-    summ = BlockSummary(h0, ZERO32, consensus.calc_merkle_root_hash([cb]), BASE_TS + 7, target, 0)
-    T2 = Block(BlockHeader(summ, PowEvidence(b'\x58' * 32, b'\x68' * 32, b'\x78' * 32)), [cb])
+    cs1, T1, filler = hollow_base_far(h0, target, salt=salt * 2 + 1, over={start_height: _filler_block(start_ts_1)})
+    cs2, T2, _ = hollow_base_far(h0, target, n_outputs=8, value_each=4_000_000_000, salt=salt * 2 + 2,
+                                 over={start_height: _filler_block(start_ts_2)})
     t1, t2 = T1.hash(), T2.hash()
-    base_map = cs1.block_by_height_by_hash[t1]
-    map2 = base_map.set(start_height, filler2).set(h0, T2)
     cs = CoinState(
         block_by_hash=cs1.block_by_hash.set(t2, T2),
-        unspent_transaction_outs_by_hash=cs1.unspent_transaction_outs_by_hash.set(t2, uto_apply_block(immutables.Map(), T2)),
-        block_by_height_by_hash=cs1.block_by_height_by_hash.set(t2, map2),
+        unspent_transaction_outs_by_hash=cs1.unspent_transaction_outs_by_hash.set(t2, cs2.unspent_transaction_outs_by_hash[t2]),
+        block_by_height_by_hash=cs1.block_by_height_by_hash.set(t2, cs2.block_by_height_by_hash[t2]),
         heads=cs1.heads.set(t2, T2),
         current_chain_hash=t1)
     return cs, T1, T2
@@ -170,25 +166,30 @@ class HollowMap:
         return self.h0 + sum(1 for k in self.over.keys() if k >= self.h0)
 
 
-def hollow_base_far(h0: int, target: bytes, n_outputs: int = 12, value_each: int = 5_000_000_000):
-    """Like hollow_base, for heights where a real 1M-entry index would be wasteful (halving boundaries)."""
+def hollow_base_far(h0: int, target: bytes, n_outputs: int = 12, value_each: int = 5_000_000_000, salt: int = 0, over=None):
+    """Like hollow_base with an O(1) index: for heights where a real 1M-entry index would be wasteful (halving
+    boundaries) and for per-run unique bases (salt != 0: nothing a run builds can collide with another run's objects).
+    over: extra {height: block} entries of the never-validated history."""
     ck = ('far', h0, target, n_outputs, value_each)
-    if ck in _BASE_CACHE:
+    if salt == 0 and over is None and ck in _BASE_CACHE:
         return _BASE_CACHE[ck]
-    filler = _filler_block(BASE_TS - 10_000_000)
+    filler = _FILLER.get('f')
+    if filler is None:
+        filler = _FILLER['f'] = _filler_block(BASE_TS - 10_000_000)
     outs = [Output(value_each + i, key(i % 12).pk) for i in range(n_outputs)]
-    cb = Transaction([Input(OutputReference(ZERO32, 0), CoinbaseData(h0, b'far'))], outs)
+    cb = Transaction([Input(OutputReference(ZERO32, 0), CoinbaseData(h0, b'far%d' % salt if salt else b'far'))], outs)
     summ = BlockSummary(h0, ZERO32, consensus.calc_merkle_root_hash([cb]), BASE_TS, target, 0)
     T = Block(BlockHeader(summ, PowEvidence(b'\x59' * 32, b'\x69' * 32, b'\x79' * 32)), [cb])
     th = T.hash()
     cs = CoinState(
         block_by_hash=immutables.Map({th: T}),
         unspent_transaction_outs_by_hash=immutables.Map({th: uto_apply_block(immutables.Map(), T)}),
-        block_by_height_by_hash=immutables.Map({th: HollowMap(h0, filler, immutables.Map({h0: T}))}),
+        block_by_height_by_hash=immutables.Map({th: HollowMap(h0, filler, immutables.Map({**(over or {}), h0: T}))}),
         heads=immutables.Map({th: T}),
         current_chain_hash=th)
-    _BASE_CACHE[ck] = (cs, T, filler)
-    return _BASE_CACHE[ck]
+    if salt == 0 and over is None:
+        _BASE_CACHE[ck] = (cs, T, filler)
+    return cs, T, filler
 
 
 def genesis_base():
@@ -273,11 +274,11 @@ def seal(view: CoinState, height: int, prev: bytes, ts: int, target: bytes, txs,
     raise Unminable()
 
 
-def mine_honest(view: CoinState, txs, miner: Key, ts: int, nonce0: int = 0, max_tries: int = 20000):
+def mine_honest(view: CoinState, txs, miner: Key, ts: int, nonce0: int = 0, max_tries: int = 20000, data: bytes = b''):
     """The node's own assembly path (construct_block_for_mining) + nonce search."""
     nonce = nonce0
     for _ in range(max_tries):
-        b = consensus.construct_block_for_mining(view, list(txs), miner.pk, ts, b'', nonce % (1 << 32))
+        b = consensus.construct_block_for_mining(view, list(txs), miner.pk, ts, data, nonce % (1 << 32))
         if b.hash() < b.target:
             return b
         nonce += 1
